@@ -178,6 +178,8 @@ def make_run(W, shape, known_active=None, replay_info=None):
             full_outcome(lambda: ov.dispatch(mkarg(c, f)), LOG)
         return full_outcome(op(ov, spec), LOG)
 
+    refcache = {}
+
     def run(ctx):
         k1 = ctx.value(k1v).as_long()
         k2 = ctx.value(k2v).as_long() if two else None
@@ -258,14 +260,18 @@ def make_run(W, shape, known_active=None, replay_info=None):
             elif switched[0] is not None:
                 ctx.pc.append(k2v > counts[1])
         ctx.literals += 1
-        exp = [alone(specs[0])[1], alone(specs[1])[1]]
         after = [full_outcome(lambda: ov.dispatch(mkarg(c, f)), LOG) for c, f in PROBES]
-        ref, LOGr = build()
-        for c, f in shape.get("warm", []):
-            full_outcome(lambda: ref.dispatch(mkarg(c, f)), LOGr)
-        full_outcome(op(ref, specs[0]), LOGr)
-        full_outcome(op(ref, specs[1]), LOGr)
-        exp_after = [full_outcome(lambda: ref.dispatch(mkarg(c, f)), LOGr) for c, f in PROBES]
+        if "exp" not in refcache:
+            # the solitary outcomes and the sequential after-state do not depend on the schedule (the hierarchy is fixed):
+            # computed once per scenario
+            refcache["exp"] = [alone(specs[0])[1], alone(specs[1])[1]]
+            ref, LOGr = build()
+            for c, f in shape.get("warm", []):
+                full_outcome(lambda: ref.dispatch(mkarg(c, f)), LOGr)
+            full_outcome(op(ref, specs[0]), LOGr)
+            full_outcome(op(ref, specs[1]), LOGr)
+            refcache["after"] = [full_outcome(lambda: ref.dispatch(mkarg(c, f)), LOGr) for c, f in PROBES]
+        exp, exp_after = refcache["exp"], refcache["after"]
         ok = (not hang) and results == exp and after == exp_after
         info = dict(scenario=shape["name"], switch_at=list(switched[0]) if switched[0] else None, second_switch=switched[1],
                     results=results, alone=exp if results != exp else None, b_blocked_on_lock=baton.blocked[1], probes_after=after if after != exp_after else "as sequential",
@@ -313,9 +319,9 @@ def gen_shapes(tier, seed):
             lo = hi + 1
     if tier != "quick":
         # two pre-emptions on a reduced set of first switch points (every 7th line), second switch anywhere in B
-        for s in SCEN[:3]:
+        for s in (SCEN[0], SCEN[4]):
             n = count_lines(s)
-            for lo in range(1, n, 40):
+            for lo in range(7, n, 200):
                 shapes.append(dict(s, krange=[lo, lo], preemptions=2))
     return shapes, len(shapes), False
 
@@ -338,7 +344,7 @@ def main(tier, seed):
     return runner.finish(
         PID, tier, seed, t0, results, level="model_checking",
         bounds=dict(threads=2, preemptions="1 (every executed ovld line of thread A is a switch point; B then runs to completion)"
-                    + ("" if tier == "quick" else "; 2 on a reduced set of first switch points (every 40th line), second switch at every line of B"),
+                    + ("" if tier == "quick" else "; 2 on a reduced set of first switch points (every 200th line, 2 scenarios), second switch at every line of B"),
                     scenarios=[s["name"] for s in (SCEN if tier != "quick" else [SCEN[i] for i in (0, 1, 4, 5, 6, 8)])],
                     granularity="source lines of ovld/*.py and generated <ovld:...> code (not bytecodes; a switch inside a line is outside the claim)",
                     hierarchy="fixed: K0 < K1, K2 apart"),
